@@ -204,6 +204,56 @@ pub fn s9_core() -> Vec<String> {
     v
 }
 
+/// Boundary representatives: one atom per size constant / character-class predicate visible in
+/// the code (keyword buffers of MAX_KEYWORDS_LEN / MAX_MKEYWORDS_LEN bytes, ASCII vs Unicode
+/// whitespace, 1-4 byte characters, CR LF), explored inside every nesting prefix and every
+/// scanner template.
+pub fn boundary_atoms() -> Vec<String> {
+    let maxk = keywords().iter().map(|k| k.0.len()).max().unwrap_or(13);
+    let maxm = macro_keywords().iter().map(|k| k.0.len()).max().unwrap_or(14);
+    vec![
+        format!("%{}", "q".repeat(maxm)),
+        format!("%{}", "q".repeat(maxm + 1)),
+        "k".repeat(maxk),
+        "k".repeat(maxk + 1),
+        "\u{a0}".to_string(),
+        "\u{3000}".to_string(),
+        "\t".to_string(),
+        "\r\n".to_string(),
+        "😀".to_string(),
+        "a".to_string(),
+        " ".to_string(),
+        "=".to_string(),
+        "%m".to_string(),
+        "(".to_string(),
+        ")".to_string(),
+        ",".to_string(),
+        ";".to_string(),
+        "&v".to_string(),
+        "1".to_string(),
+        "\"".to_string(),
+    ]
+}
+
+pub fn boundary_spaces(n: usize) -> Vec<Space> {
+    let atoms = boundary_atoms();
+    let a: Vec<&str> = atoms.iter().map(String::as_str).collect();
+    let mut v = Vec::new();
+    let mut ctx: Vec<(&str, &str)> = Vec::new();
+    for (p, closers) in SEEDS {
+        ctx.push((p, closers[closers.len() - 1]));
+    }
+    for (p, s) in crate::templates::SCANNER_TEMPLATES {
+        if !ctx.contains(&(*p, *s)) {
+            ctx.push((p, s));
+        }
+    }
+    for (i, (p, s)) in ctx.iter().enumerate() {
+        v.push(Space::seeded(&format!("bound{i:02}[{}..{}]", p.escape_debug(), s.escape_debug()), p, s, &a, n));
+    }
+    v
+}
+
 fn sp(name: &str, atoms: &[&str], n: usize) -> Space {
     Space::new(name, atoms, n)
 }
@@ -270,7 +320,10 @@ pub fn sigma_spaces(which: &[&str], tier: Tier) -> Vec<Space> {
                     v.push(core);
                 }
             }
-            "seeded" => v.extend(seeded_spaces(if q { 3 } else { 4 })),
+            "seeded" => {
+                v.extend(seeded_spaces(if q { 3 } else { 4 }));
+                v.extend(boundary_spaces(if q { 3 } else { 4 }));
+            }
             other => panic!("unknown space {other}"),
         }
     }
